@@ -5,7 +5,8 @@ patch="$1"; secs="$2"; shift 2
 cd /verif || exit 2
 if [ -n "$(git -C /repo status --porcelain)" ]; then echo "repo not clean"; exit 2; fi
 git -C /repo apply "$patch" || { echo "patch does not apply"; exit 2; }
-trap 'git -C /repo checkout -- . ; git -C /repo clean -fdq' EXIT INT TERM
+# restore /repo AND the simulator binary (a stale mutant binary once cost an hour of confusion)
+trap 'git -C /repo checkout -- . ; git -C /repo clean -fdq; ./bin/vcheck build >/dev/null 2>&1' EXIT INT TERM
 for p in "$@"; do
   VERIF_NOEVIDENCE=1 ./bin/vcheck run "$p" --secs "$secs" 2>&1 | grep -A3 "^VIOLATION\|^property=\|^vcheck:\|^KNOWN" | cut -c1-400
   echo "exit($p)=$?"
